@@ -200,25 +200,48 @@ def p_c04(tr, V, st):
                     V.append(dict(sig='C04 outstanding request without timer', at=p.i))
 
 
+DEV_TO_MAX = 65536      # MAX_DEV_BUF: dev->to is a cbuf in overwrite mode, what is queued beyond it overwrites the oldest unsent bytes
+TELNET_ANSWERED = (3, 6, 24, 31, 39, 35, 32, 1, 33, 0)
+
+
+def torn_head(b):
+    """what is written first after dev->to stood at its capacity may begin inside a 3-byte telnet answer (the overwriting goes byte
+    by byte): `WILL/WONT opt` or `opt` without their `IAC`.  Returns the data without such a fragment."""
+    if len(b) >= 2 and b[0] in (251, 252) and b[1] in TELNET_ANSWERED: return b[2:]
+    if len(b) >= 1 and b[0] in TELNET_ANSWERED: return b[1:]
+    return b
+
+
 def p_c10(tr, V, st):
     """on each new connection the first script bytes are the login script's (telnet option answers skipped);
-    only the head action's kind can be the one sending (approximated: see DESIGN §6 C10)"""
-    devfd = {}; fresh = {}
+    only the head action's kind can be the one sending (approximated: see DESIGN §6 C10).
+    Beyond the capacity of dev->to (C10_post_poll_buffer: the buffer is `clipTo` of what was queued) the oldest queued bytes are
+    overwritten: when the queue stood at 65536 bytes before the first write of a connection, the wire may begin inside a telnet
+    answer and the login text, queued first, may be gone - counted, and nothing else is excused."""
+    devfd = {}; fresh = {}; qfull = {}; lost = {}
     for p in tr:
         for fd, w in p.writes.items():
             b = w['data']
             if fd >= 2000 and b and fd in fresh:
                 di = fresh.pop(fd); st['C10 connections checked'] += 1
+                # the queue stood at its capacity on this connection before any script byte was written: what was queued first - the
+                # login text - may have been overwritten
+                over = lost.get(fd, False)
+                if qfull.get(di, False): b = torn_head(b)
                 while len(b) >= 3 and b[0] == 255 and b[1] in (251, 252): b = b[3:]
                 if not b:
                     fresh[fd] = di; st['C10 connections checked'] -= 1
                 else:
                     login = CONF_MIXP['devs'][di]['login']
-                    if login and not b.startswith(login): V.append(dict(sig='C10 login not first', at=p.i, dev=di, first=repr(b[:40])))
+                    if login and not b.startswith(login):
+                        if over: st['C10 first write of a connection after the output buffer overran: the login text was overwritten'] += 1
+                        else: V.append(dict(sig='C10 login not first', at=p.i, dev=di, first=repr(b[:40])))
         for di, d in p.devs.items():
+            if 'to' in d: qfull[di] = len(d['to']) >= DEV_TO_MAX
             if 'conn' not in d: continue
             fd = d['fd']; stt = d['conn']
-            if stt == 2 and devfd.get(di) != (fd, 2): fresh[fd] = di
+            if stt == 2 and devfd.get(di) != (fd, 2): fresh[fd] = di; lost[fd] = False
+            if stt == 2 and fd in fresh and qfull.get(di): lost[fd] = True
             devfd[di] = (fd, stt)
             # while connected and not logged in, nothing but the login action may be at the head
             if stt == 2 and not d['logged'] and d.get('queue') and d['queue'][0][0] != 0:
@@ -649,13 +672,32 @@ def p_c08(tr, V, st):
             rx = re.escape(raw).replace(re.escape(b'%s'), rb'[0-9\[\],\-]+')
             pats.append(re.compile(b'^' + rx + b'$', re.S))
         allowed[di] = pats
-    fd2dev = {}
+    fd2dev = {}; qfull = {}; carry = {}; qlen = {}
     for p in tr:
         for di, d in p.devs.items():
             if d.get('fd', -1) >= 0: fd2dev[d['fd']] = di
         for fd, w in p.writes.items():
             if fd < 2000 or fd not in fd2dev or not w['data']: continue
             b = w['data']
+            if fd in carry and not qfull.get(fd2dev[fd]): b = carry.pop(fd) + b
+            elif qfull.get(fd2dev[fd]):
+                if carry.pop(fd, None): st['C08 unfinished unit on the wire whose rest was overwritten when the output buffer overran'] += 1
+                # dev->to stood at its capacity (C08_send_bytes: the queue is `clipTo` of what was queued): the oldest bytes were
+                # overwritten one by one, the wire may begin inside a telnet answer
+                b2 = torn_head(b)
+                if b2 != b: st['C08 writes that begin inside a telnet answer after the output buffer overran'] += 1
+                b = b2
+            if (w['ok'] and len(w['data']) < qlen.get(fd2dev[fd], 0)) or not w['ok']:
+                # a short write (the kernel took the first piece of a wrapped ring, less than was queued when the pass began): what
+                # it ends in - an unfinished telnet answer, an unfinished line - is judged together with the next write on this
+                # connection (if the connection lives to see one).  A write that failed was offered the first piece of the ring
+                # only: what that piece ends in never reached the device.
+                m = re.search(rb'\xff[\xfb\xfc]?$', b)
+                tail = b''
+                if m: tail = b[m.start():]; b = b[:m.start()]
+                k = b.rfind(b'\n') + 1
+                if (b[k:] or tail) and w['ok']: carry[fd] = b[k:] + tail
+                if w['ok'] or len(w['data']) > 1024: b = b[:k]
             # strip telnet option answers (IAC WILL/WONT o), which come from the transport, not from a script
             b = re.sub(rb'\xff[\xfb\xfc].', b'', b, flags=re.S)
             for ln in b.split(b'\n')[:-1] if b.endswith(b'\n') else b.split(b'\n'):
@@ -663,6 +705,8 @@ def p_c08(tr, V, st):
                 st['C08 script lines on the wire'] += 1
                 if not any(rx.match(ln + b'\n') for rx in allowed[fd2dev[fd]]):
                     V.append(dict(sig='C08 bytes on the wire that are no send string of the specification', at=p.i, dev=fd2dev[fd], line=repr(ln[:60])))
+        for di, d in p.devs.items():
+            if 'to' in d: qfull[di] = len(d['to']) >= DEV_TO_MAX; qlen[di] = len(d['to'])
 
 
 def _repo():
@@ -884,9 +928,11 @@ def p_m_c02(world):
 
 def p_c09_write(tr, V, st):
     """write side: for every client and every device connection, (bytes handed to the descriptor so far) ++ (bytes still queued)
-    only ever grows at its end: nothing queued is dropped, duplicated or reordered however the writes are split"""
+    only ever grows at its end: nothing queued is dropped, duplicated or reordered however the writes are split - except that
+    the queue of a device holds 65536 bytes: when it stands at that afterwards, its oldest bytes (and only those, and only as
+    many as the new bytes exceed the room) may have been overwritten"""
     cw = collections.defaultdict(bytes); cprev = {}
-    dw = {}; dprev = {}; dfd = {}
+    dw = {}; dprev = {}; dfd = {}; dqprev = {}
     for p in tr:
         if p.teardown or p.died: break
         for fd, w in p.writes.items():
@@ -904,16 +950,33 @@ def p_c09_write(tr, V, st):
         for di, d in p.devs.items():
             fd = d.get('fd', -1)
             if d.get('conn') != 2 or fd < 0 or dfd.get(di) != fd:
-                dw[di] = b''; dprev.pop(di, None); dfd[di] = fd if d.get('conn') == 2 else None
+                dw[di] = b''; dprev.pop(di, None); dqprev.pop(di, None); dfd[di] = fd if d.get('conn') == 2 else None
                 if d.get('conn') != 2: continue
             w = p.writes.get(fd)
             if w and w['ok'] and di in dprev or (w and w['ok'] and dfd.get(di) == fd): dw[di] = dw.get(di, b'') + w['data']
-            s = dw.get(di, b'') + d.get('to', b'')
+            q = d.get('to', b'')
+            s = dw.get(di, b'') + q
             if di in dprev:
                 st['C09 device streams checked'] += 1
-                if not s.startswith(dprev[di]) and w is not None and w['ok']:
-                    V.append(dict(sig='C09 bytes queued for a device were lost, duplicated or reordered', at=p.i, dev=di, before=repr(dprev[di][-60:]), after=repr(s[-60:])))
-            dprev[di] = s
+                if not s.startswith(dprev[di]):
+                    # dev->to holds MAX_DEV_BUF = 65536 bytes and overwrites (C09_device_write_conserved: queued' = clipTo (kept ++ new),
+                    # kept = what the write left of the queue): the only loss there may be is of the *oldest queued* bytes, exactly when
+                    # the queue stands at 65536 afterwards, and by exactly as many bytes as the new ones exceed the room
+                    wr = w['data'] if (w and w['ok']) else b''
+                    qp = dqprev.get(di, b'')
+                    rest = qp[len(wr):]
+                    over = None
+                    if qp.startswith(wr) and len(q) == DEV_TO_MAX:
+                        room = DEV_TO_MAX - len(rest)
+                        for newlen in range(room + 1, room + len(rest) + 1):
+                            k = newlen - room                  # the k oldest queued bytes gave way to newlen new ones
+                            if q[:len(rest) - k] == rest[k:]: over = (k, newlen); break
+                    # what one pass can queue: an answer of 3 bytes to every 3 bytes read, and the text of one send statement
+                    if over is not None and over[1] <= p.reads.get(fd, 0) + 4096:
+                        st['C09 device output buffer overran: oldest queued bytes overwritten, nothing else lost'] += 1
+                    elif w is not None and w['ok'] or len(q) == DEV_TO_MAX or len(dqprev.get(di, b'')) == DEV_TO_MAX:
+                        V.append(dict(sig='C09 bytes queued for a device were lost, duplicated or reordered', at=p.i, dev=di, before=repr(dprev[di][-60:]), after=repr(s[-60:])))
+            dprev[di] = s; dqprev[di] = q
 
 
 def telnet_decode(state, data):
